@@ -120,7 +120,24 @@ func loadProgram(repoDir string, pkgPatterns []string, overlay map[string][]byte
 	return p, nil
 }
 
+// builtPkgs: packages whose function bodies are complete. A dependency's
+// bodies are built on first use; Build() is once-only and returns when the
+// whole package is done, so no worker ever sees a half-built function (reading
+// fn.Blocks of a package another worker is still building is a race).
+var builtPkgs sync.Map
+
+func ensureBuilt(pkg *ssa.Package) {
+	if _, ok := builtPkgs.Load(pkg); ok {
+		return
+	}
+	pkg.Build()
+	builtPkgs.Store(pkg, true)
+}
+
 func (p *Program) info(fn *ssa.Function) *fnInfo {
+	if fn.Pkg != nil {
+		ensureBuilt(fn.Pkg)
+	}
 	p.mu.Lock()
 	defer p.mu.Unlock()
 	if i, ok := p.infos[fn]; ok {
